@@ -1077,6 +1077,29 @@ def guards(chk, w):
     return g
 
 
+def rule_forward(chk, w):
+    """FWD: conversion wrappers keep the address kind. `impl TryFromAddress for (NetworkType, T)` (the "convert and tell
+    me the network" wrapper) implements every try_from_<kind> by calling T's method OF THE SAME NAME; a wrapper
+    method that forwards to another kind's method hands the target a different kind of address with the same
+    20 bytes (a TEX address becomes a plain P2PKH)."""
+    n = 0
+    for f in sorted(w.fns.values(), key=lambda f: f.p):
+        m = re.match(r"^<\(zcash_protocol::consensus::NetworkType, T\) as zcash_address::(?:convert::)?TryFromAddress>::(try_from_\w+)$", f.p)
+        if not m or f.body is None:
+            continue
+        callees = [t.callee.target_p() for bb, t in f.body.calls() if not f.body.blocks[bb].cleanup and
+                   t.callee.indirect is None and re.search(r"TryFromAddress>?::try_from_\w+$", t.callee.target_p())]
+        n += 1
+        names = sorted({c.rsplit("::", 1)[-1] for c in callees})
+        if names == [m.group(1)]:
+            chk.ok("FWD", "(NetworkType, T)::%s forwards to T::%s" % (m.group(1), m.group(1)), sample=(n == 1))
+        else:
+            chk.fail("FWD", m.group(1), "(NetworkType, T)::%s forwards to %s: the wrapper changes the kind of the address"
+                     % (m.group(1), names or "nothing"), f.span.loc())
+    if n < 6:
+        chk.fail("FWD", "sites", "expected the try_from_* methods of the (NetworkType, T) wrapper, found %d" % n)
+
+
 def main(tier):
     chk = Check("C10", "other", tier)
     chk.explanation = (
@@ -1094,6 +1117,7 @@ def main(tier):
     chk.rule("TABLE", "decoder tables are the inverse of the encoder tables", floor=30)
     chk.rule("NET", "address values keep the caller's network unless the kind's encoding is shared", floor=30)
     chk.rule("KIND", "typed conversions keep P2PKH as PublicKeyHash and P2SH as ScriptHash", floor=8)
+    chk.rule("FWD", "the (NetworkType, T) conversion wrapper forwards each kind to the same kind", floor=6)
     chk.rule("ZIP316", "ZIP 316 rejections live and not bypassable; constructor discipline", floor=20)
     chk.rule("F4", "F4Jumble: same length check, reversed involutive rounds", floor=7)
     chk.rule("G", "guards of reviewed panic sites", floor=5)
@@ -1101,6 +1125,7 @@ def main(tier):
     w = zf.World(extract.facts_dir("all"), ["zcash_address", "f4jumble", "zcash_protocol", "zcash_encoding", "zcash_keys", "zcash_transparent"])
     rule_table(chk, w)
     rule_net(chk, w)
+    rule_forward(chk, w)
     chk.analysed["kind_arms"] = rule_kind(chk, w)
     rule_zip316(chk, w)
     rule_f4(chk, w)
